@@ -383,7 +383,9 @@ func runTamper(c *sup.Child, b sup.Batch) {
 				data []byte
 			}
 			var vs []variant
-			addTrunc := func(l int) { vs = append(vs, variant{fmt.Sprintf("truncated to %d of %d bytes", l, len(raw)), append([]byte{}, raw[:l]...)}) }
+			addTrunc := func(l int) {
+				vs = append(vs, variant{fmt.Sprintf("truncated to %d of %d bytes", l, len(raw)), append([]byte{}, raw[:l]...)})
+			}
 			addFlip := func(pos int, x byte) {
 				d := append([]byte{}, raw...)
 				d[pos] ^= x
